@@ -88,9 +88,18 @@ func (a *PoolAllocator) Release(ip net.IP) error {
 	addr = addr.Unmap()
 	if _, exists := a.leases[addr]; exists {
 		delete(a.leases, addr)
-		a.free = append(a.free, addr)
+		// Reserve records any address (so that conflicting static assignments are
+		// detected), but only an address this pool may hand out goes back on the
+		// free list: never the gateway, an excluded or an out-of-range address.
+		if a.assignable(addr) {
+			a.free = append(a.free, addr)
+		}
 	}
 	return nil
+}
+
+func (a *PoolAllocator) assignable(addr netip.Addr) bool {
+	return addr.Compare(a.rangeStart) >= 0 && addr.Compare(a.rangeEnd) <= 0 && !a.excluded[addr]
 }
 
 func (a *PoolAllocator) Reserve(ip net.IP, sessionID string) error {
